@@ -2345,6 +2345,7 @@ class XonshParser(Parser):
         self._reset(mark)
         return None
 
+    @memoize
     def sub_procs(self) -> Any | None:
         # sub_procs: '$(' ~ proc_cmds ')' | '$[' ~ proc_cmds ']' | '![' ~ proc_cmds ']' | '!(' ~ proc_cmds ')'
         mark = self._mark()
@@ -2403,6 +2404,7 @@ class XonshParser(Parser):
         self._reset(mark)
         return None
 
+    @memoize
     def proc_cmd(self) -> Any | None:
         # proc_cmd: sub_procs | '@(' ~ (bare_genexp | expressions) ')' | '@$(' ~ proc_cmds ')' | env_atom | !STRING help_atom | search_path | proc_macro_start ~ ((cmd_group | any_cmd))* | cmd_group | cmd_name
         mark = self._mark()
